@@ -57,6 +57,9 @@ def gen_plan(rng, i: int, tier: str) -> dict:
         # (service restart); a call may fail with that error or try again, but whatever it asks for must be what the blob names
         plan["conn_flap"] = 1
         plan["concurrent"] = False
+    if r2.random() < 0.12:
+        # the DC's services answer completely and then abort (or close) the connection at once: the caller already holds its answer
+        plan["dc"]["after_response"] = r2.choice(("rst", "rst", "eof"))
     n_ops = rng.randint(1, 6 if tier == "thorough" else 4)
     cur = gkdi.interval_of_filetime(now)
     for _ in range(n_ops):
@@ -139,6 +142,8 @@ def judge_one(plan, tr: P.Trace, fl: str):
         probes["slow_dc"] = 1
     if plan.get("no_cache_argument"):
         probes["no_cache_argument"] = 1
+    if plan["dc"].get("after_response"):
+        probes["connection_aborted_after_reply"] = 1
 
     def V(clause, cond, detail, ot=None):
         et = ""
@@ -282,7 +287,7 @@ class C17(common.Check):
             "current, corner, previous-L0 and DC-future positions, nonce and public-key mode, both layouts) against the reference DC with "
             "per-plan knobs: 4 hashes x {DH,P256,P384}, SIDs of 1..15 sub-authorities, domain/forest names 0..40 chars incl. non-ASCII, "
             "GKDI port, padding policy, header signing, envelope shape (L2 omitted at 31), DC clock skew, PRNG segmentation and latencies, "
-            "DNS discovery, a DC whose PDUs arrive after pauses of 0.5..6 s, a key service port that refuses the first connection attempt of every operation (failing with that error is accepted, asking for another key is not), security context (StubCtx 1..3 legs / real NTLM / real Negotiate). Each plan runs once per flavour; request log, "
+            "DNS discovery, a DC whose PDUs arrive after pauses of 0.5..6 s, services that abort or close the connection right after every complete Response, a key service port that refuses the first connection attempt of every operation (failing with that error is accepted, asking for another key is not), security context (StubCtx 1..3 legs / real NTLM / real Negotiate). Each plan runs once per flavour; request log, "
             "results and sync-vs-async transcripts are judged; in 30% of the plans the async execution runs all operations at once (the "
             "conversations then interleave under the PRNG scheduler and are compared per connection) and a third execution runs them as "
             "caller threads using the sync API, pre-empted at PRNG-chosen line events inside dpapi_ng. Non-trivial = every plan; distinct = distinct plan.")
@@ -293,7 +298,7 @@ class C17(common.Check):
     assumptions = ["Kerberos is not simulated", "loopback TCP of the statement is replaced by the simulated transport",
                    "ept_map max_towers / handle / referent ids and alloc_hint are recorded, not judged"]
     required_fired = ("unprotect_ok", "protect_seed", "protect_public", "future_key", "non_member_unprotect", "dns", "real_ctx", "l2_omitted",
-                      "pos_corner", "prev_l0", "blob_pub", "concurrent_ops", "thread_ops", "thread_overlap", "slow_dc", "no_cache_argument", "key_port_refused_once", "failed_with_connection_refused")
+                      "pos_corner", "prev_l0", "blob_pub", "concurrent_ops", "thread_ops", "thread_overlap", "slow_dc", "no_cache_argument", "key_port_refused_once", "failed_with_connection_refused", "connection_aborted_after_reply")
 
     def cases(self, tier, seed):
         rng = prng.stream(seed, "C17")
